@@ -1,5 +1,6 @@
 /* ofh — harness entry point: ofh <property> [tier=quick|thorough] [seed=N] [shard=i/n] [skip=U:C] [only=U:C] [verbose=1] */
 #include "common.h"
+#include "arena.h"
 #include <unistd.h>
 
 static const struct { const char *id; int (*fn)(void); } g_props[] = {
@@ -28,6 +29,7 @@ int main(int argc, char **argv)
 	}
 	if (g_run.nshards < 1 || g_run.shard < 0 || g_run.shard >= g_run.nshards) { fprintf(stderr, "ofh: bad shard\n"); return 2; }
 	rep_init();
+	ar_init();      /* fault handlers of the -O3 build (no-op on sanitizer builds): every crash is attributed */
 	for (unsigned i = 0; i < sizeof g_props / sizeof g_props[0]; i++)
 		if (!strcmp(g_props[i].id, g_run.prop)) {
 			int rc = g_props[i].fn();
